@@ -13,13 +13,14 @@ Lemma script_read_weight comb evs k bs e evs' :
   ev_weight evs' <= ev_weight evs /\ (1 <= k -> e = None -> ev_weight evs' < ev_weight evs) /\
   (e = None \/ e = Some EEof \/ e = Some EInjected).
 Proof.
-  destruct evs as [|[d| |] r]; simpl; intro E.
+  destruct evs as [|[d| | |] r]; simpl; intro E.
   - inversion E; subst. fin3.
   - destruct (length d <=? k) eqn:L.
     + destruct comb.
-      * destruct r as [|[d'| |] r']; inversion E; subst; simpl; fin3.
+      * destruct r as [|[d'| | |] r']; inversion E; subst; simpl; fin3.
       * inversion E; subst. fin3.
     + apply Nat.leb_gt in L. inversion E; subst. simpl. rewrite skipn_length. fin3.
+  - inversion E; subst. fin3.
   - inversion E; subst. fin3.
   - inversion E; subst. fin3.
 Qed.
